@@ -59,6 +59,18 @@ class Monitor:
         self.pubs = {}          # (t, v) -> number of accepted publishes
         self.step = 0
         self.sender_closes = 0  # sender handles closed or dropped so far
+        self.zombie_pubs = set()
+        self.conv_after_close = False   # some receiver handle was converted after close() returned Ok on it (F-07)
+        self.async_drop_closed = False  # some async receiver handle was dropped after close() returned Ok on it
+        for x in self.tx.values():
+            x["self_closed"] = False
+
+    def open_rx(self):
+        return sorted(k for k, x in self.rx.items() if x["live"] and not x["closed"])
+
+    def dd(self):
+        """histories in which the receiver count is known to be decremented twice for one handle"""
+        return self.conv_after_close or self.async_drop_closed
 
     def new_rx(self, kind, subs, cap):
         return {"live": True, "closed": False, "kind": kind, "subs": list(subs), "q": [], "cap": cap,
@@ -81,10 +93,14 @@ class Monitor:
         x = self.rx.get(r)
         if x is None or not x["live"]:
             return
+        if x["closed"] and (rs[0] in NOTYET or (rs[0] in ("val", "ready", "some") and len(rs) == 3)):
+            self.hit("C04:closed-rx-accepts", "receive on receiver handle %d returned %s after close() had returned Ok on it" % (r, " ".join(rs)))
         if rs[0] in ("val", "ready", "some") and len(rs) == 3:
             m = (int(rs[1]), int(rs[2]))
-            if x["sawdisc"] and not x["closed"]:
-                self.hit("C04:value-after-disc", "receiver %d obtained %r after it had observed Disconnected" % (r, m))
+            if x["sawdisc"]:
+                self.hit("C04:value-after-disc-live-sender" if x.get("disc_live") else
+                         "C04:value-after-disc-clone-of-closed" if m in self.zombie_pubs else "C04:value-after-disc",
+                         "receiver %d obtained %r after it had observed Disconnected" % (r, m))
             if x["q"] and x["q"][0] == m:
                 x["q"].pop(0)
                 x["got"].append(m)
@@ -117,6 +133,8 @@ class Monitor:
             if x["closed"]:
                 return
             x["sawdisc"] = True
+            if self.any_open() and self.sender_closes:
+                x["disc_live"] = True
             if x["q"]:
                 self.hit("C08:disc-not-drained", "receiver %d observed Disconnected with %r still owed" % (r, x["q"]))
             elif self.any_open():
@@ -137,8 +155,20 @@ class Monitor:
             k, a = op[0], [int(v) for v in op[1:]]
             if rs[0] in ("nohandle", "badid", "noapi", "busy"):
                 continue
+            if k == "pub" and rs[0] in ("ok", "closed"):
+                t = self.tx[a[0]]
+                if rs[0] == "ok" and t["self_closed"]:
+                    self.hit("C04:closed-handle-accepts", "send on sender handle %d returned Ok after close() had returned Ok on it" % a[0])
+                if rs[0] == "ok" and not self.open_rx():
+                    self.hit("C04:send-after-last-rx-double-dec" if self.dd() else "C04:send-after-last-rx",
+                             "send returned Ok although every receiver handle is closed or dropped")
+                if rs[0] == "closed" and not t["self_closed"] and not t["closed"] and self.open_rx():
+                    self.hit("C04:closed-with-live-rx-double-dec" if self.dd() else "C04:closed-with-live-rx",
+                             "send on open sender handle %d returned Closed while receiver handle(s) %r are open" % (a[0], self.open_rx()))
             if k == "pub" and rs[0] == "ok":
                 m = (a[1], a[2])
+                if self.tx[a[0]]["closed"] and not self.tx[a[0]]["self_closed"]:
+                    self.zombie_pubs.add(m)     # sent through a clone of a closed sender handle
                 self.pubs[m] = self.pubs.get(m, 0) + 1
                 for x in self.rx.values():
                     if not x["live"]:
@@ -151,8 +181,11 @@ class Monitor:
                     else:
                         x["unsub_pubs"].add(m)
             elif k == "cls" and rs[0] == "ok":
-                self.tx[a[1]] = {"live": True, "closed": self.tx[a[0]]["closed"], "kind": "s"}
+                self.tx[a[1]] = {"live": True, "closed": self.tx[a[0]]["closed"], "kind": "s", "self_closed": False}
             elif k == "xs" and rs[0] == "ok":
+                if self.tx[a[0]]["self_closed"]:
+                    self.hit("C04:double-close", "second close() on sender handle %d returned Ok" % a[0])
+                self.tx[a[0]]["self_closed"] = True
                 self.tx[a[0]]["closed"] = True
                 self.sender_closes += 1
                 self.sender_gone()
@@ -172,11 +205,29 @@ class Monitor:
                 p = self.rx[a[0]]
                 self.rx[a[1]] = self.new_rx(p["kind"], p["subs"], p["cap"])
             elif k == "xr" and rs[0] == "ok":
+                if self.rx[a[0]]["closed"]:
+                    if self.rx[a[0]].get("conv_closed"):
+                        self.conv_after_close = True
+                    self.hit("C04:double-close-after-conv" if self.rx[a[0]].get("conv_closed") else "C04:double-close",
+                             "second close() on receiver handle %d returned Ok" % a[0])
                 self.rx[a[0]]["closed"] = True
                 self.rx[a[0]]["subs"] = []
             elif k == "dr" and rs[0] == "ok":
-                self.rx[a[0]]["live"] = False
-                self.rx[a[0]]["subs"] = []
+                x = self.rx[a[0]]
+                if x["closed"] and x["kind"] == "a":
+                    self.async_drop_closed = True
+                if x["closed"] and x.get("conv_closed"):
+                    self.conv_after_close = True
+                x["live"] = False
+                x["subs"] = []
+            elif k == "cvr" and rs[0] == "ok":
+                x = self.rx[a[0]]
+                x["kind"] = "a" if x["kind"] == "s" else "s"
+                if x["closed"]:
+                    x["conv_closed"] = True
+            elif k == "cvs" and rs[0] == "ok":
+                x = self.tx[a[0]]
+                x["kind"] = "a" if x["kind"] == "s" else "s"
             elif k == "mk" and rs[0] == "ok":
                 self.futs[a[0]] = a[1]
             elif k == "df" and rs[0] == "ok":
